@@ -268,10 +268,228 @@ def rule_calibration_first(repo, rep):
                     'parameters were validated' % target)
 
 
+# ------------------------------------------------- integer-dtype safety
+from ..tags import EMPTY as _E
+from ..model import canon as _canon
+
+_FLOAT_FUNCS = set(_canon(x) for x in (
+    'numpy.sqrt', 'numpy.exp', 'numpy.log', 'numpy.mean', 'numpy.cov',
+    'numpy.std', 'numpy.var', 'numpy.linalg.norm', 'numpy.linalg.inv',
+    'numpy.linalg.eigh', 'numpy.linalg.eig', 'numpy.linalg.cholesky',
+    'numpy.linalg.pinv', 'numpy.linalg.lstsq', 'numpy.linalg.slogdet',
+    'scipy.linalg.eigh', 'scipy.linalg.pinvh', 'scipy.linalg.eig',
+    'scipy.linalg.norm', 'numpy.zeros', 'numpy.ones', 'numpy.eye',
+    'numpy.empty', 'numpy.logspace', 'numpy.linspace', 'numpy.percentile',
+    'sklearn.metrics.pairwise_distances', 'sklearn.metrics.euclidean_distances',
+    'scipy.special.logsumexp', 'numpy.divide', 'numpy.true_divide',
+    'numpy.random.randn', 'builtins.float', 'numpy.float64', 'numpy.inf',
+    'sklearn.datasets.make_spd_matrix', 'numpy.finfo'))
+_KEEP_FUNCS = set(_canon(x) for x in (
+    'numpy.sum', 'numpy.abs', 'numpy.absolute', 'numpy.square', 'numpy.dot',
+    'numpy.matmul', 'numpy.einsum', 'numpy.outer', 'numpy.vstack',
+    'numpy.hstack', 'numpy.column_stack', 'numpy.concatenate', 'numpy.unique',
+    'numpy.sort', 'numpy.take', 'numpy.maximum', 'numpy.minimum',
+    'numpy.asarray', 'numpy.asanyarray', 'numpy.array', 'numpy.atleast_2d',
+    'numpy.atleast_1d', 'numpy.zeros_like', 'numpy.ones_like',
+    'numpy.full_like', 'numpy.empty_like', 'numpy.cumsum', 'numpy.diag',
+    'numpy.tile', 'numpy.repeat', 'numpy.ravel', 'numpy.transpose',
+    'numpy.multiply', 'numpy.add', 'numpy.subtract', 'numpy.negative',
+    'numpy.max', 'numpy.min', 'numpy.amax', 'numpy.amin', 'numpy.copy',
+    'numpy.squeeze', 'numpy.reshape', 'numpy.triu', 'numpy.tril'))
+_KEEP_METHODS = {'dot', 'sum', 'max', 'min', 'copy', 'ravel', 'reshape',
+                 'flatten', 'squeeze', 'transpose', 'cumsum', 'take', 'repeat',
+                 'swapaxes', 'prod', 'round', 'clip'}
+_FLOAT_METHODS = {'mean', 'std', 'var'}
+
+
+class IntDomain(TagDomain):
+  """'mayint': array whose dtype follows the (possibly integer) user data;
+  'float': certainly floating point."""
+
+  def __init__(self, hyper_float):
+    super().__init__()
+    self.hyper_float = hyper_float
+    self.problems = []
+
+  def flow(self, tags):
+    return _E
+
+  def _cls(self, v):
+    d = v.d or _E
+    if 'float' in d:
+      return 'float'
+    if 'mayint' in d:
+      return 'mayint'
+    c = v.const()
+    if c is not NOCONST:
+      if isinstance(c, bool) or isinstance(c, int):
+        return 'int'
+      if isinstance(c, float):
+        return 'float'
+    return None
+
+  def _combine(self, *vals):
+    ks = [self._cls(v) for v in vals]
+    if 'float' in ks:
+      return frozenset(['float'])
+    if ks and all(k in ('mayint', 'int') for k in ks) and 'mayint' in ks:
+      return frozenset(['mayint'])
+    return _E
+
+  def hyperparam(self, cls, name, node):
+    return frozenset(['float']) if name in self.hyper_float else _E
+
+  def summary(self, target, args, kwargs, node, st):
+    if target.name == '_prepare_inputs' and target.cls is not None:
+      dt = kwargs.get('dtype')
+      flt = dt is not None and ((dt.fn and dt.fn[0] == 'ext' and
+                                 dt.fn[1] in ('builtins.float',
+                                              'numpy.float64')) or
+                                dt.const() in ('float', 'float64'))
+      tag = frozenset(['float' if flt else 'mayint'])
+      y = args[2] if len(args) > 2 else kwargs.get('y')
+      x = V(tag, ty='ndarray')
+      if y is None or (y.c is not NOCONST and y.const() is None):
+        return x
+      return V(_E, elts=(x, V(frozenset(['mayint']), ty='ndarray')))
+    return None
+
+  def binop(self, op, l, r, node, st):
+    if isinstance(op, ast.Div):
+      return frozenset(['float'])
+    if isinstance(op, ast.Pow):
+      k = self._cls(r)
+      if k == 'float':
+        return frozenset(['float'])
+      return self._combine(l) if k == 'int' else _E
+    if isinstance(op, (ast.Add, ast.Sub, ast.Mult, ast.MatMult, ast.FloorDiv,
+                       ast.Mod)):
+      return self._combine(l, r)
+    return _E
+
+  def unop(self, op, v, node, st):
+    return self._combine(v) if isinstance(op, (ast.USub, ast.UAdd)) else _E
+
+  def compare(self, ops, vals, node, st):
+    return _E
+
+  def attr(self, v, name, node, st):
+    if name in ('T', 'real'):
+      return self._combine(v)
+    return _E
+
+  def subscript(self, v, idx, node, st):
+    return self._combine(v)
+
+  def iter_elem(self, v, node, st):
+    return V(self._combine(v))
+
+  def unpack(self, v, n, node, st):
+    return [V(self._combine(v)) for _ in range(n)]
+
+  def tuple(self, elts, node, st):
+    return _E
+
+  def ext_call(self, dotted, args, kwargs, node, st, eng):
+    if 'dtype' in kwargs:
+      dt = kwargs['dtype']
+      if (dt.fn and dt.fn[0] == 'ext' and dt.fn[1] in (
+              'builtins.float', 'numpy.float64')) or \
+              dt.const() in ('float', 'float64'):
+        return frozenset(['float'])
+      return _E
+    out = kwargs.get('out')
+    if out is not None and self._cls(out) == 'mayint' and dotted in (
+            _canon('numpy.divide'), _canon('numpy.true_divide'),
+            _canon('numpy.sqrt'), _canon('numpy.exp'), _canon('numpy.log')):
+      self.problems.append(('out= of %s' % dotted, self.site(node),
+                            self.cur()))
+    if dotted in _FLOAT_FUNCS:
+      return frozenset(['float'])
+    if dotted in _KEEP_FUNCS:
+      arrs = [a for a in args if a.d or a.const() is not NOCONST]
+      # einsum: first argument is the subscript string
+      arrs = [a for a in args if not isinstance(a.const(), str)]
+      return self._combine(*arrs) if arrs else _E
+    return _E
+
+  def method_call(self, recv, name, args, kwargs, node, st, eng):
+    if name == 'astype':
+      a = args[0] if args else kwargs.get('dtype')
+      if a is not None and ((a.fn and a.fn[0] == 'ext' and a.fn[1] in (
+              'builtins.float', 'numpy.float64')) or
+              a.const() in ('float', 'float64')):
+        return frozenset(['float'])
+      return _E
+    if name in _FLOAT_METHODS:
+      return frozenset(['float'])
+    if name in _KEEP_METHODS:
+      return self._combine(recv, *args) if name == 'dot' else \
+          self._combine(recv)
+    return _E
+
+  def on_augassign(self, kind, target, op, val, node, st):
+    tk = self._cls(target)
+    vk = self._cls(val)
+    if tk == 'mayint':
+      if isinstance(op, (ast.Div, ast.Pow)) and not (
+              isinstance(op, ast.Pow) and vk == 'int'):
+        self.problems.append(('in-place %s' % type(op).__name__,
+                              self.site(node), self.cur()))
+      elif vk == 'float' and isinstance(op, (ast.Add, ast.Sub, ast.Mult,
+                                             ast.MatMult)):
+        self.problems.append(('in-place %s with a floating-point operand'
+                              % type(op).__name__, self.site(node),
+                              self.cur()))
+      return target.d
+    if kind in ('name', 'attr'):
+      return self.binop(op, target, val, node, st)
+    return _E
+
+
+def rule_int_safe(repo, rep):
+  R = 'DTYPE:integer-data-safe-inplace'
+  rep.rule(R, 'no in-place arithmetic (x /= e, x **= e, x op= <float>, '
+           'ufunc(..., out=x)) targets an array whose dtype follows the '
+           'user\'s data (validated without float conversion): numpy raises '
+           'a casting TypeError for integer input, so integer arrays / lists '
+           'of ints would not give the same result as float64 data')
+  n = 0
+  for c in repo.estimators():
+    f = repo.resolve_method(c, 'fit')
+    init = repo.resolve_method(c, '__init__')
+    hf = set()
+    if isinstance(init, FuncInfo):
+      for p, d in init.defaults().items():
+        if isinstance(d, ast.Constant) and isinstance(d.value, float):
+          hf.add(p)
+    dom = IntDomain(hf)
+    Engine(repo, dom, self_cls=c).run(f)
+    n += 1
+    key = c.name + '.fit'
+    seen = set()
+    for (what, s, fn) in dom.problems:
+      k = (what, fn.key if fn else '')
+      if k in seen:
+        continue
+      seen.add(k)
+      rep.refuted(R, '%s:%s@%s' % (key, what, fn.key if fn else ''), s,
+                  '%s on an array that has the dtype of the user\'s data: '
+                  'raises a casting error for integer input' % what)
+    if not seen:
+      rep.derived(R, key, site(f))
+  rep.floor('fit entry points analysed for integer-dtype safety', n, 17)
+
+
 def check(repo, rep, tier):
   rule_taint(repo, rep)
   rule_validators(repo, rep)
   rule_tuples_shape(repo, rep)
   rule_n_components(repo, rep)
   rule_calibration_first(repo, rep)
+  from . import c05
+  c05.rule_data_unchanged(repo, rep)
   api.run_rule(repo, rep)
+  rule_int_safe(repo, rep)
+
+
